@@ -2,7 +2,7 @@
     default entry point is version checking alone.  Stated on the Spec
     ([s_decode]); transported to the Model by C05 ([m_decode] = [s_decode] on
     every octet string). *)
-From RL Require Import Model.Decode Spec.SpecDecode Proofs.Options.
+From RL Require Import Model.Decode Spec.SpecDecode Proofs.Options Proofs.Transport.
 
 Theorem C14_monotone : forall o o' b x, opts_le o o' = true ->
   s_decode o' b = Ok x -> s_decode o b = Ok x.
@@ -47,6 +47,11 @@ Theorem C14_default : default_opts = {| v_reserved := false; v_version := true; 
   /\ forall b, m_try_read b = m_decode default_opts b.
 Proof. exact default_is_version_only. Qed.
 
+(** monotonicity on the Model decoder *)
+Theorem C14_model_monotone : forall o o' b m rest, bytes_ok b = true -> opts_le o o' = true ->
+  m_decode o' b = Val (Ok m, rest) -> m_decode o b = Val (Ok m, rest).
+Proof. exact model_monotone. Qed.
+
 (** non-vacuity: reserved bit 13 alone, version 2, control: rejected exactly by the reserved check *)
 Example C14_bit13 :
   let b := [51;32;0;12;0;0;0;0;0;0;0;0] in
@@ -62,3 +67,4 @@ Print Assumptions C14_unused_exact.
 Print Assumptions C14_unused_data_inert.
 Print Assumptions C14_bits_inert.
 Print Assumptions C14_default.
+Print Assumptions C14_model_monotone.
